@@ -292,7 +292,7 @@ def build_case(r, expected, nodes, mode):
 
 def run(ctx):
     C.build_harness("dl-c14")
-    proofs_ok = C.proof_gate(ctx)
+    proofs_ok = C.proof_gate(ctx, ["Model/SerializerCheck.vo", "Lua/DataSpec.vo"])
 
     ident_bad = run_ident_stream(ctx)
 
